@@ -165,6 +165,28 @@ func genName(r *rand.Rand) string {
 }
 
 func genNames(r *rand.Rand) []string {
+	if r.IntN(8) == 0 {
+		// the search lists sites really have: a few parents and chains of sub-domains under them, several levels deep,
+		// names repeated; now and then long enough for more than 255 octets in all
+		base := []string{"example", "corp.example", "example.org", "a.b.c.d.e"}[r.IntN(4)]
+		subs := []string{"eu", "lab", "eng", "x", "very-long-label-that-takes-room-in-the-list", "www"}
+		var out []string
+		cur := base
+		for k := 2 + r.IntN(12); k > 0; k-- {
+			switch r.IntN(4) {
+			case 0:
+				cur = base
+			case 1:
+				out = append(out, cur) // repeated
+			default:
+				if len(cur) < 180 {
+					cur = subs[r.IntN(len(subs))] + "." + cur
+				}
+			}
+			out = append(out, cur)
+		}
+		return out
+	}
 	n := r.IntN(9)
 	out := make([]string, 0, n)
 	for i := 0; i < n; i++ {
@@ -413,8 +435,30 @@ func judgeEdit(r *mon.Rec, idx int) {
 			return
 		}
 		want := append([]string{}, names...)
-		kind := rng.IntN(9)
+		kind := rng.IntN(11)
 		switch kind {
+		case 9: // the last name grows by labels (host -> host.example.org): the old name is a prefix of the new one
+			i := len(want) - 1
+			if rng.IntN(3) == 0 {
+				i = rng.IntN(len(want))
+			}
+			if want[i] == "" || len(want[i]) > 180 {
+				return
+			}
+			want[i] += []string{".example.org", ".x", ".lan.", ".\x00.y"}[rng.IntN(4)]
+			want[i] = strings.TrimSuffix(want[i], ".")
+			l.Labels[i] = want[i]
+		case 10: // ... or is cut back to its first label(s): the new name is a prefix of the old one
+			i := len(want) - 1
+			if rng.IntN(3) == 0 {
+				i = rng.IntN(len(want))
+			}
+			k := strings.Index(want[i], ".")
+			if k <= 0 {
+				return
+			}
+			want[i] = want[i][:k]
+			l.Labels[i] = want[i]
 		case 7, 8: // a label moves across the boundary between two adjacent names ("a.b","c" <-> "a","b.c"), or one name is
 			// cut in two at a dot / two names are joined by a dot: the dotted concatenation of the list stays what it was
 			if len(want) == 0 {
